@@ -36,11 +36,21 @@ def _model_dict(m):
 
 
 def _z3_check(text, timeout_ms):
-    s = z3.Solver()
-    s.set("timeout", timeout_ms)
-    s.from_string(text)
+    """one query in a context of its own: what the worker process inherited (the generator's terms, earlier queries) must
+    not influence the search -- the same text took 0.3 s in a fresh context and > 30 s in a used one.  A query that is
+    still `unknown` is retried once with another seed (slow queries are the unstable ones)."""
     t0 = time.time()
-    r = s.check()
+    r, s = z3.unknown, None
+    for attempt, seed in enumerate((0, 7)):
+        c = z3.Context()
+        s = z3.Solver(ctx=c)
+        s.set("timeout", timeout_ms if attempt == 0 else max(1000, timeout_ms // 2))
+        if seed:
+            s.set("random_seed", seed)
+        s.from_string(text)
+        r = s.check()
+        if r != z3.unknown:
+            break
     dt = time.time() - t0
     if r == z3.unsat:
         return "proved", dt, None, ""
@@ -53,7 +63,7 @@ def _z3_check(text, timeout_ms):
             for d in m.decls():
                 if d.arity() == 0:
                     c = d()
-                    if c.sort() == z3.IntSort():
+                    if c.sort().kind() == z3.Z3_INT_SORT:
                         s.add(c >= -6, c <= 6)
                     elif isinstance(c, z3.SeqRef):
                         s.add(z3.Length(c) <= 4)
@@ -69,7 +79,9 @@ def _z3_check(text, timeout_ms):
 
 def _cvc5_check(text, timeout_ms, produce_model=False):
     # z3's printer emits (check-sat) at the end; cvc5 needs a logic
-    body = text
+    # z3 prints its internal `seq.nth_u` (nth with an unspecified value outside the bounds) for some indexings: in
+    # SMT-LIB / cvc5 `seq.nth` is unspecified outside the bounds as well
+    body = text.replace("seq.nth_u", "seq.nth").replace("seq.nth_i", "seq.nth")
     head = "(set-logic ALL)\n"
     if produce_model:
         head = "(set-option :produce-models true)\n" + head
